@@ -104,9 +104,15 @@ def mapFunctorList (g : String → String) : List Term → List Term
   | a :: as => mapFunctor g a :: mapFunctorList g as
 end
 
+/-- Python `s.strip(c)`: remove all leading and trailing occurrences of the character `c`. -/
+def stripChar (c : Char) (s : String) : String :=
+  String.ofList ((s.toList.dropWhile (· == c)).reverse.dropWhile (· == c)).reverse
+
 /-- `logic.py:1270 unquote(s) = s.strip("'")`: remove all leading and trailing single quotes. -/
-def unquoteName (s : String) : String :=
-  String.ofList ((s.toList.dropWhile (· == '\'')).reverse.dropWhile (· == '\'')).reverse
+def unquoteName (s : String) : String := stripChar '\'' s
+
+/-- `str(constant).strip('"')` for a string constant whose text (between the double quotes) is `s`. -/
+def stringText (s : String) : String := stripChar '"' ("\"" ++ s ++ "\"")
 
 end Term
 end ProbLogModel
